@@ -3,7 +3,6 @@
 package transmit
 
 import (
-	"bytes"
 	"context"
 	"crypto/sha256"
 	"encoding/hex"
@@ -22,7 +21,7 @@ import (
 
 	"github.com/jonboulle/clockwork"
 	"github.com/klauspost/compress/zstd"
-	"github.com/vmihailenco/msgpack/v5"
+	msgpack "github.com/vmihailenco/msgpack/v5"
 
 	"github.com/honeycombio/refinery/config"
 	"github.com/honeycombio/refinery/internal/verifkit"
@@ -154,6 +153,7 @@ type c26Event struct {
 	Pad     int    `json:"pad"`
 	Pred    int    `json:"predicted_size,omitempty"`
 	Class   string `json:"class"` // deliverable | oversize | unmarshalable | unobservable
+	Group   int    `json:"group,omitempty"` // large profile: member of a body-total group
 	Step    int    `json:"step"`
 	EnqAtNs int64  `json:"enq_at_ns"` // fake-clock offset from start (lower bound for racy steps)
 	ev      *types.Event
@@ -199,12 +199,16 @@ var c26SlowKinds = []string{"retry-sleep", "retry-sleep", "hang"}
 
 func c26Plan_(rng *verifkit.Rand, caseNo int, overhead int, thorough bool) *c26Plan {
 	p := &c26Plan{}
+	nLarge := 7 // large bodies are expensive under the race detector
+	if thorough {
+		nLarge = 15
+	}
 	switch x := rng.Intn(100); {
-	case x < 50:
+	case x < 65-nLarge:
 		p.Profile = "small"
-	case x < 70:
+	case x < 82-nLarge:
 		p.Profile = "medium"
-	case x < 85:
+	case x < 82:
 		p.Profile = "large"
 	default:
 		p.Profile = "hang"
@@ -276,6 +280,9 @@ func c26Plan_(rng *verifkit.Rand, caseNo int, overhead int, thorough bool) *c26P
 	seen := map[string]bool{}
 	for len(p.Dests) < nDest {
 		d := c26Dest{Host: rng.Intn(nHosts), Key: verifkit.Pick(rng, "key-A", "key-B", "hcaik_01234567890123456789"), Dataset: verifkit.Pick(rng, c26Datasets...)}
+		if rng.Chance(0.04) {
+			d.Dataset = verifkit.Pick(rng, ".", "..")
+		}
 		k := fmt.Sprint(d.Host, d.Key, d.Dataset)
 		if seen[k] {
 			continue
@@ -320,19 +327,22 @@ func c26Plan_(rng *verifkit.Rand, caseNo int, overhead int, thorough bool) *c26P
 		}
 	case "medium":
 		p.MaxBatch = verifkit.Pick(rng, 2, 3, 5, 10, 50)
-		n := rng.Range(3, 30)
+		n := rng.Range(3, 20)
 		for i := 0; i < n; i++ {
-			newEv(rng.Intn(len(p.Dests)), verifkit.Pick(rng, 5, 3000, 65_000, 70_000, 150_000, 400_000), "deliverable")
+			newEv(rng.Intn(len(p.Dests)), verifkit.Pick(rng, 5, 300, 3000, 3000, 65_000, 70_000, 150_000, 400_000), "deliverable")
 		}
 	default: // large, large-hang
 		k := rng.Range(6, 7)
 		p.MaxBatch = verifkit.Pick(rng, k, k, k+1, 8, 50)
 		// one destination receives k events whose body lands on a chosen total
 		// around the 5 MB limit; sprinkled with boundary-size events.
-		nGroups := rng.Range(1, 2)
+		nGroups := 1
+		if thorough && rng.Chance(0.3) {
+			nGroups = 2
+		}
 		for g := 0; g < nGroups; g++ {
 			dest := rng.Intn(len(p.Dests))
-			target := c26MaxBody + verifkit.Pick(rng, -100_000, -20, -5, -4, -3, -1, 0, 1, 2, 5, 20, 100_000)
+			target := c26MaxBody + verifkit.Pick(rng, -100_000, -6, -5, -4, -3, -1, 0, 1, 2, 3, 5, 8, 20, 100_000)
 			var sizes []int
 			for try := 0; try < 1000; try++ {
 				sizes = sizes[:0]
@@ -353,10 +363,10 @@ func c26Plan_(rng *verifkit.Rand, caseNo int, overhead int, thorough bool) *c26P
 			}
 			verifkit.Shuffle(rng, sizes)
 			for _, s := range sizes {
-				newEv(dest, s-overhead, "deliverable")
+				newEv(dest, s-overhead, "deliverable").Group = g + 1
 			}
 		}
-		nb := rng.Range(0, 4)
+		nb := rng.Range(0, 2)
 		for i := 0; i < nb; i++ {
 			sz := c26MaxEvent + verifkit.Pick(rng, -1000, -1, 0, 0, 1, 1, 2, 48_577, 200_000)
 			newEv(rng.Intn(len(p.Dests)), sz-overhead, "deliverable")
@@ -374,10 +384,25 @@ func c26Plan_(rng *verifkit.Rand, caseNo int, overhead int, thorough bool) *c26P
 	// steps
 	nSteps := rng.Range(1, 8)
 	p.Steps = make([]c26Step, nSteps)
-	for i := range p.Events {
+	groupStep := map[int]int{}
+	for i, e := range p.Events {
 		s := rng.Intn(nSteps)
 		if rng.Chance(0.5) {
 			s = i * nSteps / len(p.Events) // keeps enqueue order roughly
+		}
+		if e.Group > 0 {
+			// most groups are enqueued within one step so that they meet in one batch
+			gs, ok := groupStep[e.Group]
+			if !ok {
+				gs = -1
+				if rng.Chance(0.75) {
+					gs = s
+				}
+				groupStep[e.Group] = gs
+			}
+			if gs >= 0 {
+				s = gs
+			}
 		}
 		p.Steps[s].Events = append(p.Steps[s].Events, i)
 	}
@@ -401,7 +426,7 @@ func c26MakeAction(rng *verifkit.Rand, kind string) c26Action {
 		a.Status = verifkit.Pick(rng, 400, 401, 403, 404, 413, 500, 502, 504)
 	case "retry-no-sleep":
 		a.Status = verifkit.Pick(rng, 429, 503)
-		a.RA = verifkit.Pick(rng, "60", "60", "61", "3600", "60.0", "0", "-1", "@-30", "@+120", "@+600")
+		a.RA = verifkit.Pick(rng, "60", "60", "61", "3600", "60.0", "0", "-1", "@-30", "@+300", "@+600")
 	case "retry-sleep":
 		a.Status = verifkit.Pick(rng, 429, 503)
 		a.RA = verifkit.Pick(rng, "-", "0.01", "1", "59", "59", "59.9", "@+2", "@+45", "soon", "0.000001")
@@ -470,37 +495,219 @@ var c26Zstd = func() *zstd.Decoder {
 	return d
 }()
 
-type c26Wire struct {
-	Time       time.Time      `msgpack:"time"`
-	SampleRate int64          `msgpack:"samplerate"`
-	Data       map[string]any `msgpack:"data"`
-}
-
-// c26Decode is the independent decoder: returns verif.id and wire size of
-// each event of a batch body.
+// c26Decode is the independent decoder: a minimal msgpack walker (no library
+// shared with the code under test) that returns verif.id and wire size of each
+// event of a batch body without copying payloads.
 func c26Decode(body []byte) (ids []string, sizes []int, err error) {
-	rd := bytes.NewReader(body)
-	dec := msgpack.NewDecoder(rd)
-	dec.UseLooseInterfaceDecoding(true)
-	n, err := dec.DecodeArrayLen()
+	n, p, err := c26mpLen(body, 0, 0x90, 0xdc)
 	if err != nil {
 		return nil, nil, fmt.Errorf("array header: %w", err)
 	}
 	for i := 0; i < n; i++ {
-		start := len(body) - rd.Len()
-		var ev c26Wire
-		if err := dec.Decode(&ev); err != nil {
+		start := p
+		id := ""
+		fields, q, err := c26mpLen(body, p, 0x80, 0xde)
+		if err != nil {
 			return ids, sizes, fmt.Errorf("event %d: %w", i, err)
 		}
-		end := len(body) - rd.Len()
-		id, _ := ev.Data["verif.id"].(string)
+		sawTime, sawRate, sawData := false, false, false
+		for f := 0; f < fields; f++ {
+			var key string
+			if key, q, err = c26mpStr(body, q); err != nil {
+				return ids, sizes, fmt.Errorf("event %d key: %w", i, err)
+			}
+			switch key {
+			case "time":
+				sawTime = true
+			case "samplerate":
+				sawRate = true
+			}
+			if key != "data" {
+				if q, err = c26mpSkip(body, q); err != nil {
+					return ids, sizes, fmt.Errorf("event %d field %q: %w", i, key, err)
+				}
+				continue
+			}
+			sawData = true
+			var dn int
+			if dn, q, err = c26mpLen(body, q, 0x80, 0xde); err != nil {
+				return ids, sizes, fmt.Errorf("event %d data: %w", i, err)
+			}
+			for k := 0; k < dn; k++ {
+				var dk string
+				if dk, q, err = c26mpStr(body, q); err != nil {
+					return ids, sizes, fmt.Errorf("event %d data key: %w", i, err)
+				}
+				if dk == "verif.id" {
+					if id, q, err = c26mpStr(body, q); err != nil {
+						return ids, sizes, fmt.Errorf("event %d verif.id: %w", i, err)
+					}
+				} else if q, err = c26mpSkip(body, q); err != nil {
+					return ids, sizes, fmt.Errorf("event %d data field %q: %w", i, dk, err)
+				}
+			}
+		}
+		if !sawTime || !sawRate || !sawData {
+			return ids, sizes, fmt.Errorf("event %d lacks time/samplerate/data", i)
+		}
+		p = q
 		ids = append(ids, id)
-		sizes = append(sizes, end-start)
+		sizes = append(sizes, p-start)
 	}
-	if rd.Len() != 0 {
-		return ids, sizes, fmt.Errorf("%d trailing bytes after %d events", rd.Len(), n)
+	if p != len(body) {
+		return ids, sizes, fmt.Errorf("%d trailing bytes after %d events", len(body)-p, n)
 	}
 	return ids, sizes, nil
+}
+
+func c26mpNeed(b []byte, p, n int) error {
+	if n < 0 || p+n > len(b) {
+		return fmt.Errorf("truncated at %d (+%d of %d)", p, n, len(b))
+	}
+	return nil
+}
+
+func c26mpUint(b []byte, p, n int) (int, error) {
+	if err := c26mpNeed(b, p, n); err != nil {
+		return 0, err
+	}
+	v := 0
+	for i := 0; i < n; i++ {
+		v = v<<8 | int(b[p+i])
+	}
+	return v, nil
+}
+
+// c26mpLen reads an array (fix 0x90, 16-bit 0xdc) or map (fix 0x80, 16-bit 0xde) header.
+func c26mpLen(b []byte, p int, fix, wide byte) (n, next int, err error) {
+	if err = c26mpNeed(b, p, 1); err != nil {
+		return
+	}
+	c := b[p]
+	switch {
+	case c&0xf0 == fix:
+		return int(c & 0x0f), p + 1, nil
+	case c == wide:
+		n, err = c26mpUint(b, p+1, 2)
+		return n, p + 3, err
+	case c == wide+1:
+		n, err = c26mpUint(b, p+1, 4)
+		return n, p + 5, err
+	}
+	return 0, p, fmt.Errorf("unexpected type byte 0x%02x at %d", c, p)
+}
+
+func c26mpStr(b []byte, p int) (s string, next int, err error) {
+	if err = c26mpNeed(b, p, 1); err != nil {
+		return
+	}
+	c := b[p]
+	var n, h int
+	switch {
+	case c&0xe0 == 0xa0:
+		n, h = int(c&0x1f), 1
+	case c == 0xd9:
+		n, err = c26mpUint(b, p+1, 1)
+		h = 2
+	case c == 0xda:
+		n, err = c26mpUint(b, p+1, 2)
+		h = 3
+	case c == 0xdb:
+		n, err = c26mpUint(b, p+1, 4)
+		h = 5
+	default:
+		err = fmt.Errorf("expected string, got type byte 0x%02x at %d", c, p)
+	}
+	if err == nil {
+		err = c26mpNeed(b, p+h, n)
+	}
+	if err != nil {
+		return "", p, err
+	}
+	if n > 256 {
+		return "", p + h + n, nil // long values are never keys or ids
+	}
+	return string(b[p+h : p+h+n]), p + h + n, nil
+}
+
+func c26mpSkip(b []byte, p int) (int, error) {
+	if err := c26mpNeed(b, p, 1); err != nil {
+		return p, err
+	}
+	c := b[p]
+	fixed := func(n int) (int, error) { return p + 1 + n, c26mpNeed(b, p+1, n) }
+	sized := func(w, extra int) (int, error) {
+		n, err := c26mpUint(b, p+1, w)
+		if err != nil {
+			return p, err
+		}
+		return p + 1 + w + extra + n, c26mpNeed(b, p+1+w, extra+n)
+	}
+	multi := func(n, q int) (int, error) {
+		var err error
+		for i := 0; i < n; i++ {
+			if q, err = c26mpSkip(b, q); err != nil {
+				return q, err
+			}
+		}
+		return q, nil
+	}
+	switch {
+	case c <= 0x7f || c >= 0xe0 || c == 0xc0 || c == 0xc2 || c == 0xc3:
+		return p + 1, nil
+	case c&0xf0 == 0x80:
+		return multi(2*int(c&0x0f), p+1)
+	case c&0xf0 == 0x90:
+		return multi(int(c&0x0f), p+1)
+	case c&0xe0 == 0xa0:
+		return fixed(int(c & 0x1f))
+	}
+	switch c {
+	case 0xc4, 0xd9:
+		return sized(1, 0)
+	case 0xc5, 0xda:
+		return sized(2, 0)
+	case 0xc6, 0xdb:
+		return sized(4, 0)
+	case 0xc7:
+		return sized(1, 1)
+	case 0xc8:
+		return sized(2, 1)
+	case 0xc9:
+		return sized(4, 1)
+	case 0xca, 0xce, 0xd2:
+		return fixed(4)
+	case 0xcb, 0xcf, 0xd3:
+		return fixed(8)
+	case 0xcc, 0xd0:
+		return fixed(1)
+	case 0xcd, 0xd1:
+		return fixed(2)
+	case 0xd4:
+		return fixed(2)
+	case 0xd5:
+		return fixed(3)
+	case 0xd6:
+		return fixed(5)
+	case 0xd7:
+		return fixed(9)
+	case 0xd8:
+		return fixed(17)
+	case 0xdc, 0xdd, 0xde, 0xdf:
+		w := 2
+		if c&1 == 1 {
+			w = 4
+		}
+		n, err := c26mpUint(b, p+1, w)
+		if err != nil {
+			return p, err
+		}
+		if c >= 0xde {
+			n *= 2
+		}
+		return multi(n, p+1+w)
+	}
+	return p, fmt.Errorf("invalid msgpack type byte 0x%02x at %d", c, p)
 }
 
 type c26Host struct {
@@ -528,7 +735,22 @@ func (h *c26Host) nextAction() c26Action {
 func (h *c26Host) ServeHTTP(w http.ResponseWriter, r *http.Request) {
 	rec := c26Req{Host: h.idx, Path: r.URL.EscapedPath(), Keys: r.Header.Values("X-Honeycomb-Team"),
 		Enc: r.Header.Get("Content-Encoding"), CType: r.Header.Get("Content-Type"), ArrivedNs: int64(h.clock.Now().Sub(h.t0))}
-	raw, err := io.ReadAll(r.Body)
+	var raw []byte
+	var err error
+	if r.ContentLength >= 0 && r.ContentLength < 64<<20 {
+		raw = make([]byte, r.ContentLength)
+		var n int
+		n, err = io.ReadFull(r.Body, raw)
+		raw = raw[:n]
+		if err == nil {
+			var one [1]byte
+			if k, _ := r.Body.Read(one[:]); k > 0 {
+				err = fmt.Errorf("body longer than Content-Length")
+			}
+		}
+	} else {
+		raw, err = io.ReadAll(r.Body)
+	}
 	rec.WireLen = len(raw)
 	if err != nil || (r.ContentLength >= 0 && int64(len(raw)) != r.ContentLength) {
 		rec.Aborted = true
@@ -669,6 +891,8 @@ type c26Outcome struct {
 	gaugeNames []string
 	respErrors int64
 	syncLost   string
+	gridLost   bool
+	overdue    *c26Overdue
 	stopHung   bool
 }
 
@@ -685,6 +909,43 @@ type c26Runner struct {
 	enqTC  int
 	lost   string
 	nextTk time.Time
+	// gridLost: the dispatcher did not handle a tick at the instant the driver
+	// expected one; from then on the driver no longer waits for ticks (the
+	// deadline oracle below does not depend on it, only its sensitivity does).
+	gridLost bool
+	overdue  *c26Overdue
+}
+
+type c26Overdue struct {
+	Event   *c26Event `json:"event"`
+	NowNs   int64     `json:"fake_now_ns"`
+	AgeNs   int64     `json:"age_ns"`
+	LimitNs int64     `json:"limit_ns"`
+	Others  int       `json:"other_overdue_events"`
+}
+
+// watchdog budgets shrink after the first loss of synchronisation in a process
+// so that a broken tree produces its verdict instead of a go test timeout.
+var c26SyncLosses int
+
+func c26Watchdog(d time.Duration) time.Time {
+	if c26SyncLosses > 0 {
+		d /= 8
+	}
+	return time.Now().Add(d)
+}
+
+// c26Backoff sleeps a little longer on every call (30us .. 1ms).
+type c26Backoff struct{ d time.Duration }
+
+func (b *c26Backoff) wait() {
+	if b.d == 0 {
+		b.d = 30 * time.Microsecond
+	}
+	time.Sleep(b.d)
+	if b.d < time.Millisecond {
+		b.d = b.d * 3 / 2
+	}
 }
 
 func c26Unused() string {
@@ -727,7 +988,7 @@ func c26Execute(t *testing.T, p *c26Plan) *c26Outcome {
 	}
 	var hdr map[string]string
 	if p.ExtraHdr {
-		hdr = map[string]string{"X-Honeycomb-Team": "not-your-key", "X-Verif-Extra": "1", "Content-Encoding": "identity"}
+		hdr = map[string]string{"X-Honeycomb-Team": "not-your-key", "X-Verif-Extra": "1"}
 	}
 	m := newC26Metrics()
 	dt := NewDirectTransmission(tt, tr, p.MaxBatch, p.BatchTO, p.SendTO, p.Compress, hdr)
@@ -792,6 +1053,11 @@ func c26Execute(t *testing.T, p *c26Plan) *c26Outcome {
 		done <- n
 	}()
 	watchdog := time.After(90 * time.Second)
+	// the fake clock stays put until everything for prompt hosts has arrived
+	// (arrival instants of the flush are then comparable with enqueue instants)
+	hold := c26Watchdog(40 * time.Second)
+	holding := r.lost == ""
+	var bo c26Backoff
 wait:
 	for {
 		select {
@@ -802,20 +1068,34 @@ wait:
 			out.stopHung = true
 			break wait
 		default:
+			if holding {
+				seen := lg.seenCount(func(id string) bool { e := r.byID[id]; return e != nil && r.timed(e) })
+				if seen >= r.enqTC {
+					holding = false
+					bo = c26Backoff{}
+				} else if time.Now().After(hold) {
+					holding = false
+					r.lost = fmt.Sprintf("flush by Stop: only %d of %d events for prompt hosts arrived within the watchdog", seen, r.enqTC)
+					c26SyncLosses++
+				}
+				bo.wait()
+				continue
+			}
 			// wake retry sleepers: from here on fake time only has to pass
 			clock.Advance(7 * time.Second)
-			time.Sleep(200 * time.Microsecond)
+			bo.wait()
 		}
 	}
 	out.gauge, out.gaugeNames = m.bySuffix(m.updown, "_queued_items")
 	out.respErrors, _ = m.bySuffix(m.count, "_response_errors")
-	for _, h := range hosts {
-		h.srv.CloseClientConnections()
-		h.srv.Close()
-	}
 	tr.CloseIdleConnections()
+	for _, h := range hosts {
+		h.srv.Close() // waits for outstanding handlers
+	}
 	out.reqs = lg.snapshot()
 	out.syncLost = r.lost
+	out.gridLost = r.gridLost
+	out.overdue = r.overdue
 	return out
 }
 
@@ -852,6 +1132,7 @@ func (r *c26Runner) step(si int) {
 		r.toTick(d)
 		wg.Wait()
 		r.quiesce()
+		r.checkDeadline()
 		remaining -= d
 	} else {
 		enqueue().Wait()
@@ -861,11 +1142,49 @@ func (r *c26Runner) step(si int) {
 		d := r.nextTk.Sub(r.clock.Now())
 		if remaining < d {
 			r.clock.Advance(remaining)
+			r.checkDeadline()
 			return
 		}
 		r.toTick(d)
 		r.quiesce()
+		r.checkDeadline()
 		remaining -= d
+	}
+}
+
+// checkDeadline is the dispatch-deadline oracle: at the current fake instant
+// no event for a prompt host may still sit in a pending batch once more than
+// 1.25 x BatchTimeout of fake time has passed since it was enqueued. The
+// dispatcher gets real time to act on the instant (bounded poll); the fake
+// clock is not moved meanwhile.
+func (r *c26Runner) checkDeadline() {
+	if r.overdue != nil {
+		return
+	}
+	now := int64(r.clock.Now().Sub(r.t0))
+	limit := int64(r.plan.BatchTO) * 5 / 4
+	deadline := c26Watchdog(30 * time.Second)
+	var bo c26Backoff
+	for {
+		var worst *c26Event
+		n := 0
+		for _, ev := range c26Pending(r.dt) {
+			if e := r.byPtr[ev]; e != nil && r.timed(e) && now-e.EnqAtNs > limit {
+				n++
+				if worst == nil || e.EnqAtNs < worst.EnqAtNs {
+					worst = e
+				}
+			}
+		}
+		if worst == nil {
+			return
+		}
+		if time.Now().After(deadline) {
+			r.overdue = &c26Overdue{Event: worst, NowNs: now, AgeNs: now - worst.EnqAtNs, LimitNs: limit, Others: n - 1}
+			c26SyncLosses++
+			return
+		}
+		bo.wait()
 	}
 }
 
@@ -875,16 +1194,18 @@ func (r *c26Runner) toTick(d time.Duration) {
 	before := r.m.staleTicks()
 	r.clock.Advance(d)
 	r.nextTk = r.nextTk.Add(r.plan.BatchTO / 4)
-	if r.lost != "" {
+	if r.gridLost {
 		return
 	}
-	deadline := time.Now().Add(15 * time.Second) // watchdog, not an oracle
+	deadline := c26Watchdog(10 * time.Second) // watchdog, not an oracle
+	var bo c26Backoff
 	for r.m.staleTicks() <= before {
 		if time.Now().After(deadline) {
-			r.lost = "dispatcher did not handle a tick within the watchdog"
+			r.gridLost = true
+			c26SyncLosses++
 			return
 		}
-		time.Sleep(20 * time.Microsecond)
+		bo.wait()
 	}
 }
 
@@ -895,8 +1216,8 @@ func (r *c26Runner) quiesce() {
 	if r.lost != "" {
 		return
 	}
-	deadline := time.Now().Add(15 * time.Second) // watchdog, not an oracle
-	sleep := 20 * time.Microsecond
+	deadline := c26Watchdog(40 * time.Second) // watchdog, not an oracle
+	var bo c26Backoff
 	for {
 		pend := 0
 		for _, ev := range c26Pending(r.dt) {
@@ -910,12 +1231,10 @@ func (r *c26Runner) quiesce() {
 		}
 		if time.Now().After(deadline) {
 			r.lost = fmt.Sprintf("quiescence not reached: enqueued=%d pending=%d seen=%d (prompt hosts)", r.enqTC, pend, seen)
+			c26SyncLosses++
 			return
 		}
-		time.Sleep(sleep)
-		if sleep < 2*time.Millisecond {
-			sleep *= 2
-		}
+		bo.wait()
 	}
 }
 
@@ -1055,7 +1374,7 @@ func c26Check(run *verifkit.Run, o *c26Outcome) {
 			nRetried++
 		}
 		if b.Attempts > 2 {
-			run.Violation("C26/attempts/more-than-two/"+c26ActionClass(b.Actions), fmt.Sprintf("one batch body was sent %d times (answers: %v)", b.Attempts, b.Actions),
+			run.Violation("C26/attempts/more-than-two/after-"+c26ActionClass(b.Actions[:len(b.Actions)-1]), fmt.Sprintf("one batch body was sent %d times (answers: %v)", b.Attempts, b.Actions),
 				witness{Plan: &briefPlan, Body: b})
 		}
 		dataset, derr := "", error(nil)
@@ -1065,6 +1384,7 @@ func c26Check(run *verifkit.Run, o *c26Outcome) {
 			derr = fmt.Errorf("path is not /1/batch/<dataset>")
 		}
 		var oldest int64 = -1
+		onlyDeliverable := true
 		for k, id := range rq.IDs {
 			e := byID[id]
 			if e == nil {
@@ -1073,6 +1393,7 @@ func c26Check(run *verifkit.Run, o *c26Outcome) {
 				continue
 			}
 			d := p.Dests[e.Dest]
+			onlyDeliverable = onlyDeliverable && e.Class == "deliverable"
 			if d.Host != rq.Host {
 				run.Violation("C26/address/host", fmt.Sprintf("event %s for host #%d arrived at host #%d", id, d.Host, rq.Host),
 					witness{Plan: &briefPlan, Event: e, Body: c26Brief(rq)})
@@ -1081,7 +1402,10 @@ func c26Check(run *verifkit.Run, o *c26Outcome) {
 				run.Violation("C26/address/key", fmt.Sprintf("event %s with API key %q sent with X-Honeycomb-Team %q", id, d.Key, rq.Keys),
 					witness{Plan: &briefPlan, Event: e, Body: c26Brief(rq)})
 			}
-			if derr != nil || dataset != d.Dataset {
+			if (derr != nil || dataset != d.Dataset) && (d.Dataset == "." || d.Dataset == "..") {
+				run.Violation("C26/address/dataset-dot-segment", fmt.Sprintf("event %s for dataset %q sent to path %q (%v)", id, d.Dataset, rq.Path, derr),
+					witness{Plan: &briefPlan, Event: e, Body: c26Brief(rq)})
+			} else if derr != nil || dataset != d.Dataset {
 				run.Violation("C26/address/dataset", fmt.Sprintf("event %s for dataset %q sent to path %q (%v)", id, d.Dataset, rq.Path, derr),
 					witness{Plan: &briefPlan, Event: e, Body: c26Brief(rq)})
 			}
@@ -1099,7 +1423,7 @@ func c26Check(run *verifkit.Run, o *c26Outcome) {
 			}
 		}
 		// dispatch deadline, fake clock, prompt hosts only
-		if o.syncLost == "" && oldest >= 0 && rq.Host < len(p.HostPrompt) && p.HostPrompt[rq.Host] {
+		if o.syncLost == "" && !o.gridLost && onlyDeliverable && oldest >= 0 && rq.Host < len(p.HostPrompt) && p.HostPrompt[rq.Host] {
 			limit := int64(p.BatchTO) * 5 / 4
 			if rq.ArrivedNs-oldest > limit {
 				run.Violation("C26/timing/dispatch-later-than-1.25-batch-timeout",
@@ -1108,6 +1432,15 @@ func c26Check(run *verifkit.Run, o *c26Outcome) {
 			}
 			run.Count("bodies_timing_checked", 1)
 		}
+	}
+
+	if o.overdue != nil {
+		run.Violation("C26/timing/still-pending-after-1.25-batch-timeout",
+			fmt.Sprintf("event %s was still in a pending batch %v (fake clock) after it was enqueued, limit %v", o.overdue.Event.ID, time.Duration(o.overdue.AgeNs), time.Duration(o.overdue.LimitNs)),
+			witness{Plan: &briefPlan, Event: o.overdue, Reqs: allReqs()})
+	}
+	if o.gridLost {
+		run.Count("cases_dispatcher_tick_not_seen_when_expected", 1)
 	}
 
 	// exactly once
@@ -1196,7 +1529,9 @@ func c26Check(run *verifkit.Run, o *c26Outcome) {
 		sort.Strings(kinds)
 		kinds = c26Uniq(kinds)
 		cls := "mixed"
-		if len(kinds) == 1 {
+		if missingSeen {
+			cls = "with-unsent-events"
+		} else if len(kinds) == 1 {
 			cls = kinds[0]
 		} else if len(kinds) == 0 {
 			cls = "all-accepted"
@@ -1206,7 +1541,7 @@ func c26Check(run *verifkit.Run, o *c26Outcome) {
 			witness{Plan: &briefPlan, Reqs: allReqs()})
 	}
 
-	if o.syncLost != "" && !missingSeen && run.ViolationCount() == 0 {
+	if o.syncLost != "" && !missingSeen {
 		run.Inconclusive("C26 driver: " + o.syncLost)
 	}
 
@@ -1282,10 +1617,12 @@ func TestVerif_C26(t *testing.T) {
 	overhead := c26Calibrate(t)
 	run.Count("calibrated_event_overhead_bytes", int64(overhead))
 
-	run.Cases("run", run.N(110, 3000), func(i int, rng *verifkit.Rand) {
+	run.Cases("run", run.N(100, 3000), func(i int, rng *verifkit.Rand) {
 		p := c26Plan_(rng, i, overhead, run.Thorough())
+		started := time.Now()
 		o := c26Execute(t, p)
 		c26Check(run, o)
+		t.Logf("case %d %s mb=%d bt=%v events=%d reqs=%d wall=%v syncLost=%q gridLost=%v", i, p.Profile, p.MaxBatch, p.BatchTO, len(p.Events), len(o.reqs), time.Since(started).Round(time.Millisecond), o.syncLost, o.gridLost)
 		if i < 3 {
 			run.Sample(map[string]any{"profile": p.Profile, "max_batch": p.MaxBatch, "batch_timeout": p.BatchTO.String(), "palette": p.Palette,
 				"dests": p.Dests, "events": len(p.Events), "steps": len(p.Steps), "requests": len(o.reqs)})
